@@ -173,6 +173,8 @@ def rand_tag_string(rng):
     return s[:i] + rng.choice([c for c in ODD if c != "\ud800"] + ["-", "."]) + s[i:]
 
 
+SIGMA_PARTS = ["X\u03a3", "\u03a3", "\u03a3Y", "A\u03a3B", "Y", "OS", "\u0130", "x\u0130", "\u0391\u03a3"]
+
 class C14(Prop):
     id = "C14"
     lean_modules = ["PkgProofs.Props.C14"]
@@ -330,6 +332,11 @@ class C14(Prop):
                 yield ("tag_case_insensitive", {"t": [rng.choice(PY), rng.choice(ABI), rng.choice(PLAT)], "seed": sd})
             else:
                 yield ("parse_tag_str", {"t": [rng.choice(PY + ["", "É"]), rng.choice(ABI + ["x_y"]), rng.choice(PLAT)]})
+                if k % 3 == 0:
+                    # the compressed set is the product of the dotted parts *as Tags*: each part is lower-cased on its own
+                    # (U+03A3 lower-cases by context, U+0130 to two code points: folding the whole string first differs)
+                    part = lambda pool: [rng.choice(pool + SIGMA_PARTS) for _ in range(rng.choice([1, 2, 2, 3]))]
+                    yield ("parse_tag_is_product", {"py": part(PY), "abi": part(ABI), "plat": part(PLAT)})
 
     def check_law(self, law, inp):
         U, T = _utils(), _tags()
@@ -420,6 +427,21 @@ class C14(Prop):
             c = [a[0] + "x", a[1], a[2]]
             if T.Tag(*c) == t:
                 return False, f"Tag{tuple(c)} == Tag{tuple(a)}"
+            return True, ""
+        if law == "parse_tag_is_product":
+            parts = [[str(x) for x in inp[k]] for k in ("py", "abi", "plat")]
+            if any((not ps) or any(("-" in x or "." in x or not x) for x in ps) for ps in parts):
+                raise ValueError("outside the law's domain")
+            text = "-".join(".".join(ps) for ps in parts)
+            want = frozenset(T.Tag(i, a, p) for i in parts[0] for a in parts[1] for p in parts[2])
+            got = T.parse_tag(text)
+            if got != want:
+                return False, (f"parse_tag({text!r}) = {sorted(map(str, got))}, the product of the dotted parts as Tags is "
+                               f"{sorted(map(str, want))}")
+            name = f"foo-1.0-{text}.whl"
+            got2 = U.parse_wheel_filename(name)[3]
+            if got2 != want:
+                return False, f"parse_wheel_filename({name!r}) tags = {sorted(map(str, got2))}, expected {sorted(map(str, want))}"
             return True, ""
         if law == "parse_tag_str":
             a = [str(x) for x in inp["t"]]
